@@ -139,7 +139,7 @@ class Oracle:
                 # e.g. a torn config file: nothing is served, so C19 is not violated
                 self.probe("config_torn_unopenable")
                 return None
-            return self._v("18a", "the cache could not be opened: %r" % (obs.exc,), obs)
+            return self._v("19f-open" if self.c19 else "18a", "the cache could not be opened: %r" % (obs.exc,), obs)
         if obs.fetches:
             return self._v("18b" if not self.c19 else "19f", "opening the cache contacted a resource: %r" % (obs.fetches,), obs)
         self.max_bytes = obs.max_bytes
@@ -149,7 +149,7 @@ class Oracle:
         v = self._check_evictions(obs, current=set(), strict=not self.c19 or not self.tainted)
         if v:
             return v
-        if not self.c19 or not self.tainted:
+        if not self.c19:
             on_disk = {w.key_of_path[p] for p in post_files if p in w.key_of_path}
             if reg != on_disk:
                 return self._v("18d", "after (re)open in_cache says %s but cache files on disk are for keys %s"
@@ -297,10 +297,10 @@ class Oracle:
             if posixpath.dirname(p) != CACHE_DIR:
                 return self._v("18a" if not self.c19 else "19b", "returned path %s is outside the cache directory" % p, obs)
             prev = self.path_seen.get(k)
-            if prev is not None and prev != p:
+            if prev is not None and prev != p and not self.c19:
                 return self._v("18c", "key %d was served from %s before and from %s now" % (k, prev, p), obs)
             other = self.owner_of_path.get(p)
-            if other is not None and other != k:
+            if other is not None and other != k and not self.c19:
                 return self._v("18c", "keys %d and %d share the file %s" % (other, k, p), obs)
             self.path_seen[k] = p
             self.owner_of_path[p] = k
@@ -332,8 +332,8 @@ class Oracle:
         # --- hits must not contact the resource; misses must -------------------------
         for r, n in fetch_count.items():
             if n > miss_per_res.get(r, 0):
-                if self.c19 and (failing or zombies):
-                    continue  # retries / zombie traffic are not hits being refetched
+                if self.c19:
+                    continue  # 18b is C18's clause; under faults retries / zombie traffic are legitimate
                 return self._v("18b", "resource %s was contacted %d times but only %d requested keys using it were not cached"
                                % (r, n, miss_per_res.get(r, 0)), obs)
         for k in misses:
@@ -524,7 +524,7 @@ class Oracle:
             return self._v("18d" if not self.c19 else "19d-poison", "remove(key %d) raised %r" % (k, obs.exc), obs)
         new_reg = {i for i, b in enumerate(obs.in_cache) if b}
         p = self.path_seen.get(k) or w.path_of_key.get(k)
-        if not self.c19 or not self.tainted:
+        if not self.c19:
             if new_reg != reg - {k}:
                 return self._v("18d", "after remove(key %d) in_cache is true for %s, expected %s" % (k, sorted(new_reg), sorted(reg - {k})), obs)
             if k in reg and p in post_files:
@@ -549,9 +549,9 @@ class Oracle:
         if obs.exc is not None:
             return self._v("18d" if not self.c19 else "19d-poison", "purge() raised %r" % (obs.exc,), obs)
         new_reg = {i for i, b in enumerate(obs.in_cache) if b}
-        if new_reg:
+        if new_reg and not self.c19:
             return self._v("18d", "after purge in_cache is still true for %s" % sorted(new_reg), obs)
-        if not self.c19 or not self.tainted:
+        if not self.c19:
             if post_files:
                 return self._v("18d", "purge left %d cache files on disk" % len(post_files), obs)
             if obs.length != 0:
